@@ -588,4 +588,8 @@ theorem rpm_skips_implicit (now imt : Int) (c : Content) (h : c.type = T.implici
   · rfl
   · simp [h]
 
+/-- the translator regenerated, on this run and from the working tree, every table this property is tied through
+    (when an extraction fails the reviewed table stands in so that the model still compiles, and this stops checking) -/
+theorem translator_tables_regenerated : Generated.extracted_G7Accepted = true ∧ Generated.extracted_G8WriteTgz = true := by decide
+
 end Nfpm.Props.C04
